@@ -38,8 +38,21 @@ static std::string handle(const std::vector<std::string>& f)
         // the first group is the default group; its name is the parser's third constructor argument
         auto g0 = nv::splitc(groups.at(0), ':');
         no::parser p(app, about, nv::unhex(g0.at(0)));
+        bool early = pos.size() > 4 && pos.at(4) == "1";
+        auto early_usage = [&] {
+            // the text is also asked for while the declaration is still going on (before the first and after every
+            // group): the final text describes the final declarations
+            if (early)
+            {
+                std::stringstream sink;
+                p.usage(sink);
+            }
+        };
+        early_usage();
         for (std::size_t gi = 0; gi < groups.size(); gi++)
         {
+            if (gi > 0)
+                early_usage();
             auto g = nv::splitc(groups[gi], ':');
             no::group& grp = gi == 0 ? p.group() : p.group(nv::unhex(g.at(0)), nv::unhex(g.at(1)));
             if (g.at(2).empty())
